@@ -18,16 +18,29 @@ eight families below; the digits after "-f" in the program id name them:
     hold temporaries, caught by handlers that use their parameters (Never has no `throw`)
   7 self tail calls with record/string/closure accumulators, bounded non-tail recursion
   8 long garbage-churning loops over a small live set
-A trailing "u" in the id marks the few programs that end, on purpose, with an unhandled exception
-(after the digest was printed).
+A trailing "u" in the id marks the few (~2%) programs that end, on purpose, with an unhandled
+exception after the digest was printed.  The VM then prints a machine dump that contains the
+lines "mem_size: <-m>" and "stack_size: <-s>": mask them when comparing runs with different -m.
 
 Language facts the templates rely on (all observed on the pinned tree):
   * a variable is a heap cell; `var b = a`, record/array literals and calls pass the *cell*, so
     `h = Node(i, h)` makes a cycle.  Copies are made with `x + 0`, `dst = src`, `r.f = src`.
-  * catch handlers see only the function's parameters.
-  * collections happen at RET and at every SLIDE (self tail call, and every dropped statement
-    value), so loops are full of safe points; the budget below counts those.
-  * the default stack has 200 slots (about 165 usable): non-tail recursion is kept <= ~10 deep.
+  * `var x = f()` is rejected for record/string/func results ("cannot assign const ..."):
+    templates write `var x = T; x = f()`; elements of a `let` array are const.
+  * there is no `throw`; catch handlers see only the function's parameters; no `<` on strings;
+    `length` is for strings only; an array slice is a type of its own (not an array parameter).
+  * collections happen at RET and at every SLIDE, and SLIDE is emitted not only for self tail
+    calls but wherever a statement value is dropped (2 per `for` iteration), so loops are full
+    of safe points.  Ctx.n() keeps the estimated number of safe points of a program around
+    800..2600 (+ fixed costs): measured median 1400, max ~2900; under the ASan build that is
+    <= 0.13 s with the plain CLI and <= ~0.3 s (median 0.13 s) with a collection *and* a full
+    heap audit at every safe point.
+  * the descent of a non-tail recursion has no safe point unless it calls something: templates
+    put a call there so that allocation bursts stay small (all programs of seeds 1,2 run with
+    -m 350, most with -m 250; peak live 200 cells median, ~300 max; 63 of those are the VM's own).
+  * the default stack has 200 slots, 34 are in use when main starts and every let/var of main
+    takes one; stack overflow trips an ASan report in vm_execute_mark before "stack too large"
+    is printed.  Ctx.depth() caps recursion depths so that programs need <= ~165 slots.
 """
 import hashlib
 import os
